@@ -472,7 +472,8 @@ TABLE = {
 }
 
 
-BASE_SPLIT = ('C14', 'C15', 'C16', 'C17')
+BASE_SPLIT = ('C02', 'C10', 'C14', 'C15', 'C16', 'C17', 'C18', 'C19', 'C20')
+GEN_PREFIXES = ('PyRtTS', 'TSGen', 'IdentifyGen', 'TraversalGen', 'PyRtLoop')
 
 
 def coq_type(imports, expr, unfold):
@@ -528,7 +529,7 @@ def main(which):
         if pid in BASE_SPLIT:
             # the same file without the theorems about the code TRANSLATED from the source: used by a run on which the translator
             # refused the current source (the property is then decided by the hand-written model tied by correspondence alone)
-            imps = ' '.join(m for m in imports.split() if not (m.startswith('PyRtTS') or m.startswith('TSGen')))
+            imps = ' '.join(m for m in imports.split() if not m.startswith(GEN_PREFIXES) and m != 'PyRt')
             base = [out[0].replace('GENERATED by', 'BASE VARIANT (no translated-source theorems), GENERATED by'), f'From CG Require Import {imps}.', '']
             k = 3
             while k < len(out):
